@@ -98,7 +98,7 @@ def gen_osu_doc(r: random.Random, hi: int = 10, keys: int | None = None) -> dict
                        "source", "beatmap_id", "beatmap_set_id", "distance_spacing", "grid_size", "timeline_zoom", "approach_rate"],
                       r.choice([0, 0, 1, 3])):
         meta.pop(k)  # keys may be absent from a file: the reader keeps its defaults (not judged)
-    return dict(keys=keys, meta=meta, background=r.choice(["bg.jpg", "", "背景.png", "b g.jpg"]), samples=samples, tps=tps, objs=objs)
+    return dict(keys=keys, meta=meta, background=r.choice(["bg.jpg", "", "背景.png", "b g.jpg", "a,b,c.png", "Tribal Trial, full ver.jpg"]), samples=samples, tps=tps, objs=objs)
 
 
 def gen_osu_fmt(r: random.Random, knobs: dict) -> dict:
@@ -160,7 +160,7 @@ def gen_qua_doc(r: random.Random, hi: int = 10) -> dict:
             d["Bpm"] = r.choice([120.0, 175.0, 60.0, 200.5, 87.25, 300, 150])
         tps.append(d)
     svs = []
-    for _ in range(r.choice([0, 0, 1, 2, 4])):
+    for _ in range(r.choice([0, 0, 1, 2, 4]) if hi <= 24 else r.randint(hi // 2, hi * 2)):
         d = {}
         put_t(d, t())
         if r.random() < 0.85:
@@ -454,6 +454,11 @@ def gen_bms_doc(r: random.Random, hi: int = 6, layout: str | None = None, odd_te
         r.shuffle(tl)
         headers = hd + tl
     obj_ids = wav_ids + [_id36(i) for i in r.sample(range(200, 400), 2)]  # some ids without a #WAV
+    if not lnobj and r.random() < 0.5:
+        # no #LNOBJ in the file: the last id of the table is then an ordinary sound like any other
+        obj_ids += [b"ZZ", b"ZZ"]
+        if r.random() < 0.5:
+            headers.append([b"WAVZZ", enc("snd_ZZ.wav")])
     lines = []
     # C09 sources: every measure stays inside one family of subdivisions, so that its rows fit StepMania's 384-row cap:
     # the divisors of 192, or one odd family (fifths, sevenths, ninths, elevenths of a beat and their doublings)
